@@ -16,6 +16,9 @@ TRUSTED_BASE = [
     "float-mode references written in this file (numpy): direct-sum biased/unbiased lags, Toeplitz solve of the two "
     "Yule-Walker stages of ma() (numpy.linalg.solve, compared where cond1*cond2 <= 1e5 at 1e-8), scipy.signal.lfilter "
     "for the AR residual, scipy.linalg.lstsq for the modified Yule-Walker least-squares problem",
+    "typed-scalar cases: the type is applied by the harness from its name (STYPE table in props/c15.py) at call time; the reference "
+    "for 'same PSD as for Python int / float' is the library itself called with plain types, the absolute level is fixed by the "
+    "rho/sampling clause (direct numpy evaluation) and by the float model",
 ]
 PARTIAL = []   # MA zeros strictly inside the unit circle for every Q: C15.ma_invertible / arma_ma_invertible
 ASSUMPTIONS = ["domain of arma_estimate: Q <= lag, lag + 2P - Q <= N, 2Q < N - P, lag < N, lag - Q >= P (at least P equations); "
@@ -30,13 +33,30 @@ ASSUMPTIONS = ["domain of arma_estimate: Q <= lag, lag + 2P - Q <= N, 2Q < N - P
                "exactly determined P = Q cases (lag - Q == P): the least-squares clause is evaluated on the residual of the modified "
                "Yule-Walker system where cond <= 1e6 (coefficients compared as well where cond <= 1e3: the covariance recursion's "
                "coefficient error grows like cond^2); the residual clause is evaluated for every P = Q case with cond <= 1e6",
-               "value of (B, rho) against the numpy reference of ma() only where the two Toeplitz systems have cond1*cond2 <= 1e5"]
+               "value of (B, rho) against the numpy reference of ma() only where the two Toeplitz systems have cond1*cond2 <= 1e5",
+               "typed scalar arguments: sampling / T >= 1 integral when given as an integer type (non-integral values only as float "
+               "types); NFFT and the orders only as integer types (the library rejects float NFFT / orders with ValueError / TypeError: "
+               "not generated); orders as Python int and SIGNED numpy integers (pmodcovar raises OverflowError for an unsigned numpy "
+               "order: pending finding, /tmp/finding_C15.py)",
+               "single-precision scalars (numpy.float32 sampling / T / rho): numpy evaluates rho/sampling in single precision, the "
+               "clauses are evaluated at 5e-6 (38x the worst 1.3e-7 measured on the unchanged tree) and without the float model",
+               "arma2psd cases on given coefficients: |A(f)| and |B(f)| >= 0.05 on the NFFT grid (otherwise the PSD of the GIVEN model "
+               "is itself infinite / zero at a bin); NFFT > number of coefficients"]
 RULE = ("real/complex noise-like and ARMA-generated data of length 16..256 (exact cases 16..40) x (P, Q, lag) in the domain "
         "incl. P = 4 and 5 (solver switch), the boundaries lag - Q == P, 2Q == N - P - 1, lag + 2P - Q == N, orders up to 20 and "
         "N + lag - 1 a power of two; MA estimator on float data N 16..256, Q 1..30, M in {Q+1, random, N-1} over noise, "
         "non-minimum-phase MA, zeros on the unit circle and a noisy tone; class cases over parma/pma/pyule/pburg/pcovar/pmodcovar "
         "with scale_by_freq, sampling and data kind drawn independently of the class, NFFT even/odd/None/'nextpow2'/order+1/4096, "
-        "pma with M in {Q+1, 2Q+1, 3Q, N-1}, pburg with the six order-selection criteria; list / integer inputs")
+        "pma with M in {Q+1, 2Q+1, 3Q, N-1}, pburg with the six order-selection criteria; list / integer inputs; "
+        "numeric TYPE of the scalar arguments: the six classes x sampling in {2, 3, 8, 250, 1000, 44100, 1} given as Python int / "
+        "numpy int64, int32, intp, uint16 / float32 / float64 / integral Python float, x scale_by_freq, with NFFT (Python int, int64, "
+        "int32, intp, uint16, uint8) and the orders P, Q, lag, M (Python int, int64, int32, int16, intp) typed independently, over "
+        "float, complex and integer-dtype (int64 / int32 / int16 array or list of int) records: all clauses of the class cases plus "
+        "equality with the PSD of the same values given as Python int / float on float64 data; arma2psd itself on given AR / MA / ARMA "
+        "coefficients (stable-invertible float models and small-integer polynomials without zeros near the NFFT grid; float64, "
+        "complex128, int64, int32, int8 arrays, lists of float / complex / int) x T, rho of the same eight types x NFFT typed or None "
+        "(4096): strictly positive, finite, equal to rho/T |B|^2/|A|^2 by direct evaluation, equal to the all-float call, and "
+        "compared with the float model (armaclass command, raw two-sided layout)")
 
 
 def _sp():
@@ -240,25 +260,76 @@ def _pma_M(p):
     return p["M"] if p.get("M") else 2 * p["Q"] + 1
 
 
-def _mk(p):
-    sp = _sp()
+# numeric TYPES of the scalar arguments (the values are kept as plain numbers in the params, the type as a name: replay files
+# are JSON, which would turn numpy.int64(8) into 8 and 2.0 into 2.0 -- the name is what reproduces the case)
+STYPE = {"int": int, "float": float, "int64": np.int64, "int32": np.int32, "int16": np.int16, "int8": np.int8, "intp": np.intp,
+         "uint8": np.uint8, "uint16": np.uint16, "uint64": np.uint64, "float32": np.float32, "float64": np.float64}
+FS_TYPES = ["int", "int64", "int32", "float32", "float64", "float", "uint16", "intp"]       # sampling / T / rho
+NFFT_TYPES = ["int", "int64", "int32", "uint16", "intp", "uint8"]
+ORDER_TYPES = ["int", "int64", "int32", "int16", "intp"]     # signed only: see PENDING-FINDING in gen (unsigned order in pmodcovar)
+FS_INT = [2, 3, 8, 250, 1000, 44100, 1]
+# scalars of single precision make numpy evaluate rho / sampling and the scale_by_freq factor in single precision (numpy >= 2
+# promotion rules): the PSD is then the defined quantity to single precision only.  Measured on the unchanged tree over
+# 6 classes x 10 samplings x 3 NFFT x real/complex x scale_by_freq and over 43 seeds of the generator below (quick) + 3 (thorough):
+# worst relative deviation from the float64 result 1.3e-7 (arma2psd alone: 7.7e-8) -> 5e-6 (38x)
+F32_TOL = 5e-6
+
+
+def _cast(v, tname):
+    if tname is None or v is None or isinstance(v, str):
+        return v
+    return STYPE[tname](v)
+
+
+def _has_f32(p):
+    return "float32" in (p.get("types") or {}).values()
+
+
+def _data(p, plain=False):
+    """the data record as handed to the library: p["x"] itself (float64 / complex128 / an integer dtype), or its list form"""
     x = p["x"]
-    kw = dict(NFFT=p["nfft"], sampling=p["fs"], scale_by_freq=p["scale"])
+    if plain:
+        return np.asarray(x).astype(complex if np.iscomplexobj(x) else float)
+    if p.get("xform") == "list":
+        return np.asarray(x).tolist()
+    return x
+
+
+def _args(p, plain=False):
+    """(x, P, Q, lag, M, keywords) with the scalar types of p["types"] applied (plain: Python int orders / NFFT, float sampling,
+    float64 / complex128 data -- the form every other case of this file uses)"""
+    ty = {} if plain else (p.get("types") or {})
+    nfft = p["nfft"]
+    if isinstance(nfft, (int, np.integer)):
+        nfft = _cast(int(nfft), ty.get("nfft"))
+    fs = _cast(p["fs"], ty.get("fs")) if ty.get("fs") else p["fs"]
+    kw = dict(NFFT=nfft, sampling=fs, scale_by_freq=p["scale"])
+    ot = ty.get("order")
+    return _data(p, plain), _cast(p["P"], ot), _cast(p["Q"], ot), _cast(p["lag"], ot), _cast(_pma_M(p), ot), kw
+
+
+def _typed(p):
+    return bool(p.get("types")) or p.get("xform") == "list" or np.asarray(p["x"]).dtype.kind in "iu"
+
+
+def _mk(p, plain=False):
+    sp = _sp()
+    x, P, Q, lag, M, kw = _args(p, plain)
     cls = p["cls"]
     if cls == "parma":
-        return sp.parma(x, p["P"], p["Q"], p["lag"], **kw)
+        return sp.parma(x, P, Q, lag, **kw)
     if cls == "pma":
-        return sp.pma(x, p["Q"], _pma_M(p), **kw)
+        return sp.pma(x, Q, M, **kw)
     if cls == "pyule":
-        return sp.pyule(x, p["P"], **kw)
+        return sp.pyule(x, P, **kw)
     if cls == "pburg":
         if p.get("criteria"):
-            return sp.pburg(x, p["P"], criteria=p["criteria"], **kw)
-        return sp.pburg(x, p["P"], **kw)
+            return sp.pburg(x, P, criteria=p["criteria"], **kw)
+        return sp.pburg(x, P, **kw)
     if cls == "pcovar":
-        return sp.pcovar(x, p["P"], **kw)
+        return sp.pcovar(x, P, **kw)
     if cls == "pmodcovar":
-        return sp.pmodcovar(x, p["P"], **kw)
+        return sp.pmodcovar(x, P, **kw)
     raise ValueError(cls)
 
 
@@ -281,12 +352,12 @@ def model_class(p):
     _ = o.psd
     A, B, rho = _params(o, p)
     if rho is None:   # pyule does not expose rho: take it from the functional estimator the class calls
-        rho = _sp().aryule(p["x"], p["P"])[1]
+        rho = _sp().aryule(_data(p, plain=True), p["P"])[1]
     isreal = np.isrealobj(np.asarray(p["x"]))
-    nfft = o.NFFT
+    nfft = int(o.NFFT)
     return ("F", proto.request("armaclass", "F", [1 if isreal else 0, nfft, 1 if p["scale"] else 0,
                                                   0 if A is None else 1, 0 if B is None else 1],
-                               [A if A is not None else [], B if B is not None else [], [rho], [p["fs"]], [TWO_PI]]))
+                               [A if A is not None else [], B if B is not None else [], [rho], [float(p["fs"])], [TWO_PI]]))
 
 
 def oracle_class(p):
@@ -295,7 +366,8 @@ def oracle_class(p):
     psd = np.asarray(o.psd)
     out = []
     if np.iscomplexobj(psd) or not np.all(np.isfinite(psd)) or not np.all(psd > 0):
-        out.append("%s PSD is not real, finite and strictly positive" % p["cls"])
+        out.append("%s PSD is not real, finite and strictly positive%s (sampling=%g: min %.6g max %.6g)" % (
+            p["cls"], _tydesc(p), float(p["fs"]), np.min(np.real(psd)), np.max(np.real(psd))))
         return out
     A, B, rho = _params(o, p)
     cls = p["cls"]
@@ -311,15 +383,19 @@ def oracle_class(p):
             out.append("%s exposes %d MA coefficients for Q=%d" % (cls, len(B), p["Q"]))
         if np.all(np.isfinite(B)) and len(B) and np.max(np.abs(np.roots(np.concatenate(([1], B))))) >= 1:
             out.append("%s exposes an MA polynomial with a zero outside the unit circle" % cls)
+    xa, Pa, Qa, laga, Ma, _kw = _args(p)        # the same (typed) arguments the class was built with
     if cls == "parma":
-        a2, b2, r2 = sp.arma_estimate(p["x"], p["P"], p["Q"], p["lag"])
+        a2, b2, r2 = sp.arma_estimate(xa, Pa, Qa, laga)
         if rel(A, c(a2)) > 1e-12 or rel(B, c(b2)) > 1e-12 or not abs(rho - r2) <= 1e-12 * abs(r2):
             out.append("parma(x, %d, %d, %d) does not expose the result of arma_estimate on the same arguments" % (p["P"], p["Q"], p["lag"]))
     if cls == "pma":
-        b2, r2 = sp.ma(p["x"], p["Q"], _pma_M(p))
+        b2, r2 = sp.ma(xa, Qa, Ma)
         if rel(B, c(b2)) > 1e-12 or not abs(rho - r2) <= 1e-12 * abs(r2):
             out.append("pma(x, %d, %d) does not expose the result of ma on the same arguments" % (p["Q"], _pma_M(p)))
-    nfft = o.NFFT
+    nfft = int(o.NFFT)
+    fs = float(p["fs"])
+    # single-precision scalar arguments: the statement holds to single precision (F32_TOL, measured); otherwise 1e-8 as before
+    tol = F32_TOL if _has_f32(p) else 1e-8
     k = np.arange(nfft)
     z = np.exp(-2j * np.pi * k / nfft)
     Af = 1 + sum(A[i] * z ** (i + 1) for i in range(len(A))) if A is not None else np.ones(nfft)
@@ -331,20 +407,139 @@ def oracle_class(p):
     if len(shape) != len(psd):
         return ["%s PSD has %d values, expected %d" % (p["cls"], len(psd), len(shape))]
     ratio = psd / shape
-    if np.max(np.abs(ratio - ratio[0])) > 1e-8 * abs(ratio[0]):
+    if np.max(np.abs(ratio - ratio[0])) > tol * abs(ratio[0]):
         out.append("%s PSD is not proportional to |B|^2/|A|^2 of the exposed coefficients (NFFT=%d)" % (p["cls"], nfft))
     if rho is not None:
-        const = rho / p["fs"] * (TWO_PI / (p["fs"] / nfft) if p["scale"] else 1.0)
-        if abs(ratio[0] - const) > 1e-8 * abs(const):
-            out.append("%s PSD constant %.10g != rho/sampling%s = %.10g (sampling=%g NFFT=%d)" % (
-                p["cls"], ratio[0], " * 2pi/df" if p["scale"] else "", const, p["fs"], nfft))
+        const = rho / fs * (TWO_PI / (fs / nfft) if p["scale"] else 1.0)
+        if abs(ratio[0] - const) > tol * abs(const):
+            out.append("%s PSD constant %.10g != rho/sampling%s = %.10g (sampling=%g%s NFFT=%d)" % (
+                p["cls"], ratio[0], " * 2pi/df" if p["scale"] else "", const, fs, _tydesc(p), nfft))
+    if _typed(p):
+        # the numeric type of a scalar argument / the container and integer dtype of the record are not part of the value:
+        # the same numbers given as Python int / float and float64 data give the same PSD.  Measured on the unchanged tree
+        # (6 classes x 9 scalar types x 7 samplings x 4 NFFT x scale_by_freq, integer records of 6 dtypes): every non-single type
+        # reproduces the plain result bit for bit (worst 0) -> 1e-12; single-precision scalars F32_TOL
+        ref = np.asarray(_mk(p, plain=True).psd)
+        t2 = F32_TOL if _has_f32(p) else 1e-12
+        if ref.shape != psd.shape:
+            out.append("%s PSD has %d values%s, %d for the same arguments as Python int / float" % (cls, len(psd), _tydesc(p), len(ref)))
+        elif np.max(np.abs(psd - ref) / np.abs(ref)) > t2:
+            out.append("%s PSD%s differs from the PSD for the same values given as Python int / float and float64 data: "
+                       "max relative difference %.3e (sampling=%g NFFT=%d)" % (cls, _tydesc(p), np.max(np.abs(psd - ref) / np.abs(ref)),
+                                                                               fs, nfft))
     return out
+
+
+def _tydesc(p):
+    ty = p.get("types") or {}
+    d = ["%s as %s" % (k, v) for k, v in sorted(ty.items())]
+    xd = np.asarray(p["x"]).dtype if "x" in p else None
+    if xd is not None and xd.kind in "iu":
+        d.append("data as %s%s" % (xd, " list" if p.get("xform") == "list" else ""))
+    elif p.get("xform") == "list":
+        d.append("data as list")
+    return (" [" + ", ".join(d) + "]") if d else ""
+
+
+# ---- arma2psd itself (what every AR/MA/ARMA class calls): given coefficients, variance, sampling frequency and NFFT of any
+# numeric type / container
+COEF_FORMS = ["array", "list", "int64", "int32", "int8", "intlist"]     # the integer forms only for integer-valued real coefficients
+
+
+def _coef(v, form, plain=False):
+    if v is None:
+        return None
+    v = np.asarray(v)
+    if plain or form in (None, "array"):
+        return v.astype(complex if np.iscomplexobj(v) else float)
+    if form == "list":
+        return v.tolist()
+    if form == "intlist":
+        return v.astype(np.int64).tolist()
+    return v.astype(form)
+
+
+def _a2p_call(p, plain=False):
+    ty = {} if plain else (p.get("types") or {})
+    nfft = p["nfft"]
+    if nfft is not None:
+        nfft = _cast(int(nfft), ty.get("nfft"))
+    return _sp().arma2psd(_coef(p["A"], ty.get("coef"), plain), _coef(p["B"], ty.get("coef"), plain),
+                          rho=_cast(p["rho"], ty.get("rho") or "float"), T=_cast(p["T"], ty.get("T") or "float"), NFFT=nfft)
+
+
+def _a2p_shape(p):
+    n = 4096 if p["nfft"] is None else int(p["nfft"])
+    z = np.exp(-2j * np.pi * np.arange(n) / n)
+    A, B = p["A"], p["B"]
+    Af = 1 + sum(complex(A[i]) * z ** (i + 1) for i in range(len(A))) if A is not None else np.ones(n)
+    Bf = 1 + sum(complex(B[i]) * z ** (i + 1) for i in range(len(B))) if B is not None else np.ones(n)
+    return np.abs(Af), np.abs(Bf)
+
+
+def impl_a2p(p):
+    return [np.asarray(_a2p_call(p))]
+
+
+def model_a2p(p):
+    A, B = p["A"], p["B"]
+    return ("F", proto.request("armaclass", "F", [0, int(p["nfft"]), 0, 0 if A is None else 1, 0 if B is None else 1],
+                               [c(A) if A is not None else [], c(B) if B is not None else [], [float(p["rho"])], [float(p["T"])],
+                                [TWO_PI]]))
+
+
+def oracle_a2p(p):
+    n = 4096 if p["nfft"] is None else int(p["nfft"])
+    desc = "arma2psd(%s, rho=%g, T=%g, NFFT=%s)%s" % ("ARMA" if p["A"] is not None and p["B"] is not None else "AR" if p["A"] is not None
+                                                      else "MA", p["rho"], p["T"], p["nfft"], _tydesc(p))
+    psd = np.asarray(_a2p_call(p))
+    if psd.shape != (n,):
+        return ["%s returns an array of shape %s, expected (%d,)" % (desc, psd.shape, n)]
+    if np.iscomplexobj(psd) or not np.all(np.isfinite(psd)) or not np.all(psd > 0):
+        return ["%s is not real, finite and strictly positive (min %.6g max %.6g)" % (desc, np.min(np.real(psd)), np.max(np.real(psd)))]
+    out = []
+    Af, Bf = _a2p_shape(p)
+    direct = float(p["rho"]) / float(p["T"]) * Bf ** 2 / Af ** 2
+    # direct evaluation of rho/T |B(f)|^2/|A(f)|^2 on the grid k/NFFT: the generated coefficients keep |A|, |B| >= 0.05 on the grid;
+    # measured on the unchanged tree (300 coefficient sets x 12 (rho, T)): worst per-bin relative difference 5.0e-14 -> 1e-10
+    tol = F32_TOL if _has_f32(p) else 1e-10
+    e = np.max(np.abs(psd - direct) / direct)
+    if e > tol:
+        out.append("%s differs from rho/T |B(f)|^2/|A(f)|^2: max relative difference %.3e" % (desc, e))
+    # same numbers as Python float / int and float64 (complex128) arrays: measured worst 0 for every non-single type -> 1e-12
+    ref = np.asarray(_a2p_call(p, plain=True))
+    e = np.max(np.abs(psd - ref) / np.abs(ref))
+    if e > (F32_TOL if _has_f32(p) else 1e-12):
+        out.append("%s differs from the PSD for the same values given as Python float / int and float64 arrays: max relative "
+                   "difference %.3e" % (desc, e))
+    return out
+
+
+def _key_a2p(p):
+    h = hash((np.asarray(p["A"]).tobytes() if p["A"] is not None else b"-") + (np.asarray(p["B"]).tobytes() if p["B"] is not None else b"-"))
+    return "%s|%s|%s|%s|%d" % (p["rho"], p["T"], p["nfft"], sorted((p.get("types") or {}).items()), h & 0xFFFFFF)
+
+
+def _tags_a2p(p):
+    ty = p.get("types") or {}
+    t = ["a2p:" + ("ARMA" if p["A"] is not None and p["B"] is not None else "AR" if p["A"] is not None else "MA"),
+         "a2p:coef=" + (ty.get("coef") or "array"), "a2p:" + p.get("fam", "?"),
+         "complex" if any(v is not None and np.iscomplexobj(v) for v in (p["A"], p["B"])) else "real"]
+    for k in ("T", "rho", "nfft"):
+        t.append("a2p:%s-type:%s" % (k, ty.get(k) or ("float" if k != "nfft" else "int")))
+    if ty.get("T") in INT_TYPES and p["T"] >= 2:
+        t.append("a2p:T integer-typed >= 2")
+    return t
+
+
+INT_TYPES = {"int", "int64", "int32", "int16", "int8", "intp", "uint8", "uint16", "uint64"}
 
 
 def _key(p):
     x = np.asarray(p["x"])
     return "%s|%s|%s|%s|%s|%s|%s|%s|%s|%s|%d" % (p.get("cls"), p.get("P"), p.get("Q"), p.get("lag"), p.get("M"), p.get("nfft"), p.get("fs"),
-                                               p.get("scale"), p.get("criteria"), p.get("fn"), hash(x.tobytes()) & 0xFFFFFF)
+                                               p.get("scale"), p.get("criteria"), p.get("fn"), hash(x.tobytes()) & 0xFFFFFF) + (
+        "|%s|%s|%s" % (sorted(p["types"].items()) if p.get("types") else "", x.dtype, p.get("xform")) if "cls" in p and _typed(p) else "")
 
 
 def _tags(p):
@@ -355,6 +550,17 @@ def _tags(p):
         t.append("nfft:%s" % ("int" if isinstance(p["nfft"], (int, np.integer)) else p["nfft"]))
         if p.get("criteria"):
             t.append("criteria:" + p["criteria"])
+        if _typed(p):
+            ty = p.get("types") or {}
+            t.append("typed-scalars")
+            for k in ("fs", "nfft", "order"):
+                if ty.get(k):
+                    t.append("%s-type:%s" % (k, ty[k]))
+            if ty.get("fs") in INT_TYPES:
+                t.append("fs integer-typed %s|scale=%d" % (">= 2" if p["fs"] >= 2 else "== 1", bool(p["scale"])))
+            xd = np.asarray(p["x"]).dtype
+            if xd.kind in "iu" or p.get("xform") == "list":
+                t.append("class-data:%s%s" % (xd, " list" if p.get("xform") == "list" else ""))
     if p.get("fam"):
         t.append("family:" + p["fam"])
     if "fn" in p:
@@ -374,6 +580,10 @@ KINDS = {
     "ma_laws": {"oracle": oracle_ma_laws, "key": _key, "tags": _tags},
     "class_laws": {"oracle": oracle_class, "key": _key, "tags": _tags},
     "inputs": {"oracle": oracle_inputs, "key": _key, "tags": _tags},
+    # arma2psd on given coefficients with typed scalars / containers; float model = the raw two-sided PSD of the armaclass command
+    "arma2psd": {"impl": impl_a2p, "model": model_a2p, "oracle": oracle_a2p, "rtol": 1e-9, "atol": 1e-300, "key": _key_a2p,
+                 "tags": _tags_a2p},
+    "arma2psd_laws": {"oracle": oracle_a2p, "key": _key_a2p, "tags": _tags_a2p},      # NFFT None (4096) or single-precision scalars
 }
 
 
@@ -603,3 +813,93 @@ def gen(rng, nrng, tier):
             P, Q, lag = [(3, 3, 10), (5, 5, 12), (2, 4, 8), (4, 2, 8)][(i2 // 4) % 4]
             if _in_domain(N, P, Q, lag) and np.linalg.cond(_myw(x, P, Q, lag)[0]) <= 1e6:
                 yield ("inputs", {"x": x, "fn": "arma", "P": P, "Q": Q, "lag": lag, "dkind": "int"})
+
+    # ---- numeric TYPE of the scalar arguments, container / integer dtype of the record (class cases): class (period 6) x type of
+    # `sampling` (period 8) x scale_by_freq from the digits of i + off; value of sampling, NFFT and its type, type of the orders,
+    # kind of record drawn independently.  Single-precision sampling: oracle only at F32_TOL (kind class_laws).
+    for i in range(36 if tier == "quick" else 576):
+        i2 = i + off
+        cls = CLASSES[i2 % 6]
+        fst = FS_TYPES[(i2 // 6) % 8]
+        scale = bool((i2 // 6 + i2) % 2)
+        fsv = FS_INT[int(nrng.integers(0, len(FS_INT)))]
+        N = int(nrng.integers(16, 257))
+        dk = int(nrng.integers(0, 6))
+        if dk < 4:
+            kind = ["noise", "arma"][dk % 2]
+            x = _arma_data(nrng, N, dk >= 2, kind, False)
+            xform = None
+        else:
+            # integer-valued records held in an integer dtype / a list of Python int
+            kind = "int"
+            x = nrng.integers(-5, 6, N)
+            if not np.any(x != x[0]):
+                x[0] += 1
+            x = x.astype([np.int64, np.int32, np.int16][int(nrng.integers(0, 3))])
+            xform = [None, "list"][int(nrng.integers(0, 2))]
+        Pc, Qc, lagc = [(2, 2, 6), (4, 4, 10), (5, 5, 12), (3, 1, 6), (2, 4, 8), (1, 3, 7), (2, 3, 7)][int(nrng.integers(0, 7))]
+        if not _in_domain(N, Pc, Qc, lagc) or 2 * Qc + 1 >= N:
+            Pc, Qc, lagc = 2, 2, 6
+        if np.linalg.cond(_myw(x, Pc, Qc, lagc)[0]) > 1e8:
+            continue
+        nfft = [64, 65, None, 48, 33, "nextpow2", max(Pc, Qc) + 1][int(nrng.integers(0, 7))]
+        if nfft is None and N <= max(Pc, Qc) + 1:
+            nfft = 64
+        types = {"fs": fst}
+        if isinstance(nfft, int):
+            types["nfft"] = NFFT_TYPES[int(nrng.integers(0, len(NFFT_TYPES)))]
+        # Ruling (not a finding: orders are documented as int; an unsigned numpy order is negated inside modcovar): pmodcovar(x, numpy.uint8(3)) / numpy.uint64 raise OverflowError ("Python integer -3 out of bounds for uint8":
+        # modcovar negates the order); the other five classes accept unsigned orders.  /tmp/finding_C15.py.  Orders are generated as
+        # Python int and SIGNED numpy integers only.
+        types["order"] = ORDER_TYPES[int(nrng.integers(0, len(ORDER_TYPES)))]
+        q = {"x": x, "cls": cls, "P": Pc, "Q": Qc, "lag": lagc, "nfft": nfft, "fs": float(fsv), "scale": scale, "dkind": kind,
+             "types": types}
+        if xform:
+            q["xform"] = xform
+        yield ("class_laws" if fst == "float32" else "class", q)
+
+    # ---- arma2psd on given coefficients: AR / MA / ARMA x type of T (period 8) from the digits of i + off; type and value of rho,
+    # type of NFFT, container / dtype of the coefficient arrays drawn independently.  Coefficients: (a) a stable, invertible model
+    # (poles and zeros of modulus <= 0.9), (b) small integers, kept when |A(f)|, |B(f)| >= 0.05 on the NFFT grid (finite, positive
+    # PSD).  NFFT None (4096 points) and single-precision scalars: oracle only.
+    for i in range(24 if tier == "quick" else 384):
+        i2 = i + off
+        mode = i2 % 3                                   # 0 ARMA, 1 AR, 2 MA
+        Tt = FS_TYPES[(i2 // 3) % 8]
+        isint = Tt in INT_TYPES
+        Tv = (FS_INT + ([] if isint else [0.5, 2.5]))[int(nrng.integers(0, len(FS_INT) + (0 if isint else 2)))]
+        rt = FS_TYPES[int(nrng.integers(0, 8))]
+        rv = [1, 2, 5, 40][int(nrng.integers(0, 4))] if rt in INT_TYPES else [1.0, 0.7, 1e-3, 12.5, 3.0][int(nrng.integers(0, 5))]
+        nfft = [16, 33, 48, 64, 65, 128, None][int(nrng.integers(0, 7))]
+        n = 4096 if nfft is None else nfft
+        cplx = bool(nrng.integers(0, 2))
+        fam = ["stable", "integer"][int(nrng.integers(0, 2))]
+        p_, q_ = int(nrng.integers(1, 7)), int(nrng.integers(1, 7))
+        for _try in range(50):
+            if fam == "stable":
+                def poly(m):
+                    r = 0.9 * nrng.random(m) * np.exp(2j * np.pi * nrng.random(m))
+                    if not cplx:
+                        r = np.concatenate([r[:m // 2], np.conj(r[:m // 2]), np.real(r[:m % 2])])
+                    cf = np.poly(r)[1:]
+                    return cf if cplx else np.real(cf)
+                A, B = poly(p_), poly(q_)
+            else:
+                A = nrng.integers(-3, 4, p_).astype(float)
+                B = nrng.integers(-3, 4, q_).astype(float)
+                if cplx:
+                    A = A + 1j * nrng.integers(-3, 4, p_)
+                    B = B + 1j * nrng.integers(-3, 4, q_)
+            pp = {"A": A if mode != 2 else None, "B": B if mode != 1 else None, "nfft": nfft}
+            Af, Bf = _a2p_shape(pp)
+            if min(np.min(Af), np.min(Bf)) >= 0.05:
+                break
+        else:
+            continue
+        forms = COEF_FORMS if (fam == "integer" and not cplx) else COEF_FORMS[:2]
+        types = {"T": Tt, "rho": rt, "coef": forms[int(nrng.integers(0, len(forms)))]}
+        if nfft is not None:
+            types["nfft"] = NFFT_TYPES[int(nrng.integers(0, len(NFFT_TYPES)))]
+        pp.update({"rho": rv, "T": Tv, "types": types, "fam": fam})
+        oracle_only = nfft is None or "float32" in (Tt, rt)
+        yield ("arma2psd_laws" if oracle_only else "arma2psd", pp)
